@@ -16,7 +16,13 @@ CHECKS = {'C04': {'level': 'exploration',
                        'every convex QP over the same constraint sets (quick: up to 2 rows, thorough: up to 3) with the '
                        '14 distinct non-zero Q = D\'D, D over {-1,0,1}^{k x 2}, k in {1,2} (rank-deficient included) '
                        'and c in {-1,0,1}^2; thorough adds every LP with n=3, h in {0,1}, 0 or 1 equality row and 2..3 rows over '
-                       '{-1,0,1}^3 \\ {0} (6 objectives) or 4 rows over a stated 14-row subset (3 objectives); each from the '
+                       '{-1,0,1}^3 \\ {0} (6 objectives) or 4 rows over a stated 14-row subset (3 objectives); programs with TWO equality rows: '
+                       'n=2, all unordered pairs (a row may be paired with itself) over {x1+x2, x1-x2, x1, 2x1+2x2, '
+                       '-x1-x2, 2x1-2x2} x b in {0,1,2} (parallel rows with inconsistent right-hand sides, scaled / '
+                       'negated consistent duplicates, independent pairs) x 1..2 inequality rows over 6 rows x h in {0,2} '
+                       '(thorough {0,1,2}) as LP (8 objectives) and QP (4 Q incl. two rank-1, 5 resp. 9 objectives), and '
+                       'n=3 pairs over {x1+x2+x3, x1-x2, x3, 2x1+2x2+2x3} x {0,1,2} x 1..2 inequality rows over 8 rows x h '
+                       'in {0,1} x 6 objectives; each from the '
                        'default x0 and from the first strictly feasible point of a stated lattice; 135 324 KKT-constructed '
                        'programs (n in {1,2,3,5,8,12}, magnitudes 1e-2..1e2); the feasible and bounded n=2, m=3 '
                        'programs and all KKT programs again in 11 equivalent restatements. A complete small-scope '
